@@ -17,7 +17,7 @@ RULE = ("block indexes holding an active chain plus: header-only records (VALID_
         "(mixed cases combine several competitors that must all lose: failed ones in either order, others sorting before) "
         "(nonce) to sort before or after the active block's key in LevelDB order. Real runs of the callbacks: the H1 delivery log must be "
         "exactly the active chain with every prev-hash linking to the block delivered before, and every output must equal the model of "
-        "the active chain alone. Bulk cases: 9,000-140,000 header-only records above the tip (headers-first sync) with losing competitors at two thirds of the heights. distinct = (competitor class, position, key order, branch length, extras) signatures")
+        "the active chain alone. Bulk cases: 9,000-140,000 header-only records above the tip (headers-first sync) with losing competitors at two thirds of the heights. Grow cases: between runs a later database session of the node connects more blocks (records in LevelDB's log); every run must deliver the active chain as of then. A third of the small indexes have churn (rewritten keys, deleted ghost records). distinct = (competitor class, position, key order, branch length, extras) signatures")
 
 CALLBACKS = ["csvdump", "unspentcsvdump", "balances", "simplestats", "opreturn"]
 # deviations that correspond to a recorded finding shape (whether they are suppressed is decided by KNOWN_FINDINGS.txt)
